@@ -669,20 +669,26 @@ func (c *Ctx) ruleHoldTimeDomain() {
 		r.Undec(rule, ir.FuncKey(fn), "anchor:load of HoldTime", c.P.Pos(fn.Pos()), "not found")
 		return
 	}
-	var success *ssa.BasicBlock
+	// every success return (an early one that skips the hold-time test is exactly what must not exist)
+	var success []*ssa.BasicBlock
 	for _, b := range fn.Blocks {
 		if ret, ok := b.Instrs[len(b.Instrs)-1].(*ssa.Return); ok && len(ret.Results) == 2 {
 			if k, ok := ret.Results[1].(*ssa.Const); ok && k.IsNil() {
-				success = b
+				success = append(success, b)
 			}
 		}
 	}
-	if success == nil {
+	if len(success) == 0 {
 		r.Undec(rule, ir.FuncKey(fn), "anchor:success return", c.P.Pos(fn.Pos()), "not found")
 		return
 	}
 	for _, d := range []int64{0, 1, 2, 3} {
-		reach := reachableUnderAll(fn, hs, d, success)
+		reach := false
+		for _, sb := range success {
+			if reachableUnderAll(fn, hs, d, sb) {
+				reach = true
+			}
+		}
 		want := d == 0 || d == 3
 		cons := fmt.Sprintf("hold time %d", d)
 		if reach == want {
@@ -737,6 +743,7 @@ func init() {
 		Not: "The numeric results for all configurations and OPEN messages (which capability multiset yields which option values) are not decided beyond these shapes.",
 		Run: func(c *Ctx) {
 			c.ruleRatchets("C08")
+			c.ruleValidatorTestsSubject("E6.validator-tests-message", map[string]int{"pkg/packet/bgp.ValidateOpenMsg": 0, "pkg/packet/bgp.ValidateUpdateMsg": 0, "pkg/packet/bgp.ValidateAttribute": 0}, 3)
 			c.ruleSessionOptionsRefreshed("E6.session-options", nil, 7)
 			c.ruleHoldTimeMin()
 			c.ruleHoldTimeDomain()
